@@ -171,6 +171,9 @@ fn check_bld(h: &CaseH, b: &Bld) -> Verdict {
                 let nn = b.next_to(&s.name, *next);
                 let nid = nn.as_ref().and_then(|n| m.spaces.iter().find(|x| &x.name == n)).map(|x| x.id);
                 vensure!(mw.next_to == nid, "C02:source-link:wall.next_to", "wall {:?} declares NEXT-TO = {:?}; the model has {:?}", w.name, nn, mw.next_to);
+                if nn.as_ref().map_or(false, |n| b.all_spaces().iter().any(|(_, x)| &x.name == n && x.walls.is_empty())) {
+                    h.class("adjacent-space-without-elements-of-its-own");
+                }
             }
             for win in &w.windows {
                 let mwin = match m.windows.iter().find(|x| x.name == win.name) {
@@ -616,7 +619,7 @@ pub fn run(args: &Args) -> ! {
         || (gb::bld(), any::<u32>(), any::<bool>(), prop_oneof![4 => Just(0u8), 2 => Just(1u8), 3 => Just(2u8)]).prop_map(|(b, def, delete, respell)| EditCase { file: String::new(), bld: Some(Box::new(b)), def, delete: delete && respell == 0, respell }),
         check_edit,
     );
-    for c in ["real/converted", "edited_real/outcome/error", "edited_generated/outcome/error", "edited_generated/edit/respell/MATERIAL", "edited_real/edit/respell/MATERIAL", "edited_generated/live-unique-definition-broken(must fail)", "edited_real/live-unique-definition-broken(must fail)", "edited_generated/edit/reference/PEOPLE-SCHEDULE", "edited_real/edit/reference/PEOPLE-SCHEDULE", "generated/with-systems-section"] {
+    for c in ["real/converted", "edited_real/outcome/error", "edited_generated/outcome/error", "edited_generated/edit/respell/MATERIAL", "edited_real/edit/respell/MATERIAL", "edited_generated/live-unique-definition-broken(must fail)", "edited_real/live-unique-definition-broken(must fail)", "edited_generated/edit/reference/PEOPLE-SCHEDULE", "edited_real/edit/reference/PEOPLE-SCHEDULE", "generated/with-systems-section", "generated/adjacent-space-without-elements-of-its-own"] {
         ctx.require_class(c);
     }
     ctx.finish()
